@@ -31,13 +31,13 @@ INFO = {
              '>= 2 generators or a SHORT / history request, resp. export with >= 2 rock types and >= 1 generator.'),
     'require': {
         'quick': {'counters': {'conversions': 1500, 'roundtrips': 1500, 'generator_lists_judged': 1500, 'grids_judged': 1500, 'history_judged': 1500,
-                               'file_scans': 1500, 'exports': 1500, 'rock_partitions_judged': 1500, 'sources_judged': 1500, 'eos_detections': 1500, 'models_with_extra_precision_file': 60, 'real_file_conversions': 9, 'models_read_from_permuted_section_order': 200},
+                               'file_scans': 1500, 'exports': 1500, 'rock_partitions_judged': 1500, 'sources_judged': 1500, 'eos_detections': 1500, 'models_with_extra_precision_file': 60, 'real_file_conversions': 9, 'models_read_from_permuted_section_order': 200, 'earlier_converted_models_rechecked': 1000},
                   'seen': {'conversion_call': 5, 'generator_class': 3, 'mop_digit': 200, 'eos_route': 4, 'short_kinds': 6,
                            'history_item_kind': 3, 'atmosphere_type': 3},
                   'nontrivial': 1500},
         'thorough': {'counters': {'conversions': 18000, 'roundtrips': 18000, 'generator_lists_judged': 18000, 'grids_judged': 18000,
                                   'history_judged': 18000, 'file_scans': 18000, 'exports': 18000, 'rock_partitions_judged': 18000,
-                                  'sources_judged': 18000, 'eos_detections': 18000, 'models_with_extra_precision_file': 600, 'real_file_conversions': 21, 'models_read_from_permuted_section_order': 2000},
+                                  'sources_judged': 18000, 'eos_detections': 18000, 'models_with_extra_precision_file': 600, 'real_file_conversions': 21, 'models_read_from_permuted_section_order': 2000, 'earlier_converted_models_rechecked': 12000},
                      'seen': {'conversion_call': 5, 'generator_class': 3, 'mop_digit': 236, 'eos_route': 4, 'short_kinds': 8,
                               'history_item_kind': 3, 'atmosphere_type': 3},
                      'nontrivial': 15000},
@@ -593,7 +593,24 @@ def first_difference(a, b):
     return None, None
 
 
-def run_conversion(ctx, c):
+def model_settings(dat):
+    """What a conversion sets in a model, as plain values (nothing shared with the model)."""
+    def plain(d):
+        return sorted((k, repr(v)) for k, v in d.items()) if isinstance(d, dict) else repr(d)
+    return (dat.type, dat.simulator, plain(dat.lineq), plain(dat.solver), plain(dat.multi), [int(x) for x in dat.parameter['option']],
+                 [t[1:] for t in gen_snapshot(dat)], sorted(dat.generator.keys()), [(r.name, [float(x) for x in r.conductivity] if isinstance(r.conductivity, (list, tuple, np.ndarray)) else r.conductivity) for r in dat.grid.rocktypelist])
+
+
+BYSTANDER = {}
+
+
+def run_conversion(ctx, c, bystander=True):
+    if 'first' in c:
+        # replay of a pair: the earlier conversion, then the one after which the earlier model had changed
+        BYSTANDER.clear()
+        run_conversion(ctx, c['first'])
+        run_conversion(ctx, c['second'])
+        return
     case = {'kind': 'convert', 'descriptor': c}
     cv = Conv(ctx, c, case)
     dat = cv.prepare()
@@ -622,6 +639,15 @@ def run_conversion(ctx, c):
             ok = cv.to_tough2(dat, ('convert_to_TOUGH2', {'MP': False}), lab2)
             if ok and not cv.bad:
                 cv.roundtrip(dat, 'TOUGH2', lab2)
+    if not cv.bad:
+        # an earlier converted model that is still around: converting another model must leave it alone
+        prev = BYSTANDER.get('model')
+        if prev is not None:
+            ctx.count('earlier_converted_models_rechecked')
+            now = model_settings(prev[0])
+            if now != prev[1]:
+                ctx.violation('conversion-changes-another-model:' + label, 'a model converted earlier now holds %r, it held %r before this conversion of a different model' % first_difference(now, prev[1]), {'kind': 'convert', 'descriptor': {'first': prev[2], 'second': c}})
+        BYSTANDER['model'] = (dat, model_settings(dat), c)
     ctx.evaluated()
     ctx.case(('convert', repr(sorted((k, repr(v)) for k, v in c.items()))), nontrivial=nontrivial, sample=(nontrivial and len(ctx.samples) < 2))
 
@@ -936,7 +962,8 @@ def replay(ctx, case):
         return
     if case['kind'] == 'convert':
         c = case['descriptor']
-        c['call'] = tuple(c['call'])
+        for d in ([c['first'], c['second']] if 'first' in c else [c]):
+            d['call'] = tuple(d['call'])
         run_conversion(ctx, c)
     else:
         run_export(ctx, case['descriptor'])
